@@ -69,13 +69,22 @@ class HTTP11Connection(ConnectionInterface):
                 f"to {self._origin}"
             )
 
-        with self._state_lock:
-            if self._state in (HTTPConnectionState.NEW, HTTPConnectionState.IDLE):
-                self._request_count += 1
-                self._state = HTTPConnectionState.ACTIVE
-                self._expire_at = None
-            else:
-                raise ConnectionNotAvailable()
+        try:
+            with self._state_lock:
+                if self._state in (HTTPConnectionState.NEW, HTTPConnectionState.IDLE):
+                    self._request_count += 1
+                    self._state = HTTPConnectionState.ACTIVE
+                    self._expire_at = None
+                else:
+                    raise ConnectionNotAvailable()
+        except BaseException as exc:
+            if self._state == HTTPConnectionState.NEW:
+                # We were cancelled before making any use of a connection that
+                # nobody else can pick up. Close it, rather than leaving it in
+                # the pool in a state from which it can never be used or expire.
+                with ShieldCancellation():
+                    self.close()
+            raise exc
 
         try:
             kwargs = {"request": request}
